@@ -53,6 +53,9 @@ type Contract struct {
 	Sites    []SiteClause
 	Bound    bool
 	Terminates bool
+	tracked  []string // callee names mentioned as called(..) (see sites.go)
+	SafeDeref map[string]bool
+	SafeDerefTags []string
 	TermTags []string
 	Assigns  []string
 	Line     int
@@ -75,7 +78,7 @@ type SpecFunc struct {
 	Opaque bool
 }
 
-var kwRe = regexp.MustCompile(`^(func|spec|readers|writers|between|preserved|internal|inline|eosexit|requires|ensures|decreases|loop|safe|modular|terminates|witness|witnessgo|unordered|usesonly|mapwrite|callsite|nobody|sitesonly|end)\b`)
+var kwRe = regexp.MustCompile(`^(func|spec|readers|writers|between|safederef|preserved|internal|inline|eosexit|requires|ensures|decreases|loop|safe|modular|terminates|witness|witnessgo|unordered|usesonly|mapwrite|callsite|nobody|sitesonly|end)\b`)
 
 func (e *Engine) loadContracts() error {
 	e.contracts = map[string]*Contract{}
@@ -302,6 +305,15 @@ func (e *Engine) parseContractFile(file, pkgPath, data string) error {
 				for _, k := range strings.Split(fields[1], ",") {
 					cur.SafeKinds[k] = true
 				}
+			}
+		case "safederef":
+			// safederef[tags] <pkg.Global>: the nil obligation of every load that is copied into that global is claimed
+			if len(fields) >= 2 {
+				if cur.SafeDeref == nil {
+					cur.SafeDeref = map[string]bool{}
+				}
+				cur.SafeDeref[fields[1]] = true
+				cur.SafeDerefTags = tags
 			}
 		case "modular":
 			cur.Modular = true
@@ -929,6 +941,9 @@ func (env *SpecEnv) call(x *ast.CallExpr) Val {
 			specErr("unknown type %q", ts)
 		}
 		return Val{t: eq(app("i_tag", v.t), fmt.Sprint(vc.te.tagOf(t))), typ: boolT}
+	case "called": // ghost: a direct call of that callee has been executed since entry, called(Name)
+		nm := exprText(x.Args[0])
+		return Val{t: vc.he.get(env.st, calledLoc(nm), "Bool"), typ: boolT}
 	case "mapwrites": // ghost: writes to a package-level map since function entry, mapwrites(pkg.Global)
 		sel, ok := x.Args[0].(*ast.SelectorExpr)
 		if !ok {
